@@ -115,7 +115,7 @@ int main(int argc, char** argv) {
     while (std::getline(in, line)) {
         if (line.empty()) continue;
         pid_t p = fork();
-        if (p == 0) { alarm(90); child(line, argv[2]); }
+        if (p == 0) { alarm(180); child(line, argv[2]); }
         int st = 0; waitpid(p, &st, 0);
         if (!WIFEXITED(st) || WEXITSTATUS(st) != 0) {
             ++bad;
